@@ -9,7 +9,7 @@
 (*   handler   : Request (pre-checks, service.Tail, Upgrade), the three    *)
 (*               branches of its select (HCtx, HPing, HRecv/HRecvClosed),  *)
 (*               every branch ending in one WriteMessage; the deferred     *)
-(*               chain (con.Close, watcher.Close, drainer, cancel) = HExit *)
+(*               chain (con.Close, watcher.Close, drainer, cancel) = exit  *)
 (*   reader    : the goroutine looping on con.ReadMessage (close handler)  *)
 (*   drainer   : the deferred `for range watcher.GetRes()`                 *)
 (*   service   : STick (ticker), SVersion (GetVersionInfo), SDone (Done    *)
@@ -37,17 +37,20 @@
 (*                      read ends the result like a complete one; the      *)
 (*                      frame is partial and `from` moves past lines that  *)
 (*                      were never delivered                               *)
-(*   silent_refusal     an empty / unparsable query is answered by an      *)
-(*                      empty 200 response                                 *)
 (*   cursor_stuck       `if from.UnixNano() < e.TimestampNS` moves the     *)
 (*                      cursor only past lines NEWER than it: a line whose *)
 (*                      timestamp EQUALS the cursor (newest delivered      *)
 (*                      + 1 ns, or the initial now - 5 min) is delivered   *)
 (*                      and the cursor stays: the line is delivered again  *)
 (*                      on every tick until a newer line arrives           *)
-(* With Dev = {} every property below holds (MC_Tail); a recorded run of   *)
-(* the real code must be a behaviour of Dev = {} (Trace_Tail), otherwise   *)
-(* the smallest Dev that explains it names the defect.                     *)
+(*   silent_refusal     an empty / unparsable query is answered by an      *)
+(*                      empty 200 response                                 *)
+(* With Dev = {} every property below holds (MC_Tail).  A recorded run of  *)
+(* the real code must be a behaviour of Dev = {} (Trace_Tail).  To name    *)
+(* what a refused run did, the trace is explained with Mixed = TRUE: at    *)
+(* every switch both branches are allowed and the ghost `used` collects    *)
+(* the as-coded branches taken where they differ from the intended ones;   *)
+(* used = {} on some accepting path <=> behaviour of the specification.    *)
 (*                                                                         *)
 (* The cursor design itself has a NAMED LIMIT that is part of this         *)
 (* specification, not a switch: the tail asks for [from, now) and then     *)
@@ -63,16 +66,20 @@ CONSTANTS
     Lines,      \* line identifiers
     MaxT,       \* timestamps and the clock live in 0..MaxT
     Dev,        \* as-coded deviations switched on
+    Mixed,      \* TRUE: the intended branch is allowed next to every as-coded one (explaining recorded runs)
     Faults,     \* database faults the world may inject: subset of {"version","query","row","scan"}
     MaxStale,   \* writes that may still succeed after the peer dropped the connection (TCP buffering)
     MaxWire     \* frames in flight towards the client (back pressure of the connection)
 
-AllDev == {"spin_on_closed", "err_frame", "row_err_unnoticed", "silent_refusal", "cursor_stuck"}
+AllDev == {"spin_on_closed", "err_frame", "row_err_unnoticed", "cursor_stuck", "silent_refusal"}
+Cod(d) == d \in Dev                  \* the as-coded branch of switch d may be taken
+Int(d) == Mixed \/ d \notin Dev      \* the intended branch of switch d may be taken
 
 VARIABLES
     now,        \* wall clock
     store,      \* set of [id, ts]: lines visible to the query
     req,        \* "none" | "ok" | "empty" | "noparse" | "noupgrade"
+    status,     \* HTTP status class of the answer: 0 none yet | 101 upgraded | 200 | 400
     client,     \* "none" | "open" | "closing" | "closed" | "dropped" | "refused"
     hpc,        \* handler: "idle" | "select" | "term"
     rpc,        \* reader goroutine: "none" | "read" | "term"
@@ -94,10 +101,11 @@ VARIABLES
     cls,        \* Lines -> "none" | "old" | "due" | "future": position of the line at the first query after it was stored
     delivered,  \* ids read by the client
     flags,      \* "dup_sent", "dup_delivered", "bad_frame"
-    late        \* ticks the service goroutine consumed after the handler returned
+    late,       \* ticks the service goroutine consumed after the handler returned
+    used        \* as-coded branches taken (where they differ from the intended ones)
 
-vars == <<now, store, req, client, hpc, rpc, dpc, spc, from, buf, chClosed, wdone, cancelled, svcTick, pingTick,
-          vcached, wire, stale, fault, sent, cls, delivered, flags, late>>
+vars == <<now, store, req, status, client, hpc, rpc, dpc, spc, from, buf, chClosed, wdone, cancelled, svcTick, pingTick,
+          vcached, wire, stale, fault, sent, cls, delivered, flags, late, used>>
 
 Max(a, b) == IF a > b THEN a ELSE b
 MaxOf(S) == CHOOSE x \in S : \A y \in S : y <= x
@@ -111,20 +119,21 @@ ErrTail       == [k |-> "errtail", ids |-> {}]   \* "]}}"
 WellFormed(f) == f.k = "ok"
 
 Init ==
-    /\ now = 2 /\ store = {} /\ req = "none" /\ client = "none"
+    /\ now = 2 /\ store = {} /\ req = "none" /\ status = 0 /\ client = "none"
     /\ hpc = "idle" /\ rpc = "none" /\ dpc = "none" /\ spc = "none"
     /\ from = 0 /\ buf = Ping /\ chClosed = FALSE /\ wdone = FALSE /\ cancelled = FALSE
     /\ svcTick = FALSE /\ pingTick = FALSE /\ vcached = FALSE
     /\ wire = <<>> /\ stale = 0 /\ fault = "none"
-    /\ sent = {} /\ cls = [l \in Lines |-> "none"] /\ delivered = {} /\ flags = {} /\ late = 0
+    /\ sent = {} /\ cls = [l \in Lines |-> "none"] /\ delivered = {} /\ flags = {} /\ late = 0 /\ used = {}
 
+\* all variables back to their initial values (next recorded run of a concatenated trace)
 Restart ==
-    /\ now' = 2 /\ store' = {} /\ req' = "none" /\ client' = "none"
+    /\ now' = 2 /\ store' = {} /\ req' = "none" /\ status' = 0 /\ client' = "none"
     /\ hpc' = "idle" /\ rpc' = "none" /\ dpc' = "none" /\ spc' = "none"
     /\ from' = 0 /\ buf' = Ping /\ chClosed' = FALSE /\ wdone' = FALSE /\ cancelled' = FALSE
     /\ svcTick' = FALSE /\ pingTick' = FALSE /\ vcached' = FALSE
     /\ wire' = <<>> /\ stale' = 0 /\ fault' = "none"
-    /\ sent' = {} /\ cls' = [l \in Lines |-> "none"] /\ delivered' = {} /\ flags' = {} /\ late' = 0
+    /\ sent' = {} /\ cls' = [l \in Lines |-> "none"] /\ delivered' = {} /\ flags' = {} /\ late' = 0 /\ used' = {}
 
 -----------------------------------------------------------------------------
 (* the world *)
@@ -132,31 +141,31 @@ Restart ==
 StoreLine(l, t) ==
     /\ l \notin Ids(store)
     /\ store' = store \cup {[id |-> l, ts |-> t]}
-    /\ UNCHANGED <<now, req, client, hpc, rpc, dpc, spc, from, buf, chClosed, wdone, cancelled, svcTick, pingTick,
-                   vcached, wire, stale, fault, sent, cls, delivered, flags, late>>
+    /\ UNCHANGED <<now, req, status, client, hpc, rpc, dpc, spc, from, buf, chClosed, wdone, cancelled, svcTick, pingTick,
+                   vcached, wire, stale, fault, sent, cls, delivered, flags, late, used>>
 
 \* one second passes; a ticker whose channel still holds a tick drops the new one
 Tick ==
     /\ now' = IF now < MaxT THEN now + 1 ELSE now
     /\ svcTick' = (spc \notin {"none", "term"})
     /\ pingTick' = (hpc = "select")
-    /\ UNCHANGED <<store, req, client, hpc, rpc, dpc, spc, from, buf, chClosed, wdone, cancelled,
-                   vcached, wire, stale, fault, sent, cls, delivered, flags, late>>
+    /\ UNCHANGED <<store, req, status, client, hpc, rpc, dpc, spc, from, buf, chClosed, wdone, cancelled,
+                   vcached, wire, stale, fault, sent, cls, delivered, flags, late, used>>
 
 VExpire ==
     /\ vcached /\ vcached' = FALSE
-    /\ UNCHANGED <<now, store, req, client, hpc, rpc, dpc, spc, from, buf, chClosed, wdone, cancelled, svcTick, pingTick,
-                   wire, stale, fault, sent, cls, delivered, flags, late>>
+    /\ UNCHANGED <<now, store, req, status, client, hpc, rpc, dpc, spc, from, buf, chClosed, wdone, cancelled, svcTick, pingTick,
+                   wire, stale, fault, sent, cls, delivered, flags, late, used>>
 
 ClientClose ==
     /\ client = "open" /\ client' = "closing"
-    /\ UNCHANGED <<now, store, req, hpc, rpc, dpc, spc, from, buf, chClosed, wdone, cancelled, svcTick, pingTick,
-                   vcached, wire, stale, fault, sent, cls, delivered, flags, late>>
+    /\ UNCHANGED <<now, store, req, status, hpc, rpc, dpc, spc, from, buf, chClosed, wdone, cancelled, svcTick, pingTick,
+                   vcached, wire, stale, fault, sent, cls, delivered, flags, late, used>>
 
 ClientDrop ==
     /\ client = "open" /\ client' = "dropped" /\ wire' = <<>>
-    /\ UNCHANGED <<now, store, req, hpc, rpc, dpc, spc, from, buf, chClosed, wdone, cancelled, svcTick, pingTick,
-                   vcached, stale, fault, sent, cls, delivered, flags, late>>
+    /\ UNCHANGED <<now, store, req, status, hpc, rpc, dpc, spc, from, buf, chClosed, wdone, cancelled, svcTick, pingTick,
+                   vcached, stale, fault, sent, cls, delivered, flags, late, used>>
 
 ClientRead ==
     /\ client \in {"open", "closing", "closed"} /\ wire # <<>>
@@ -164,8 +173,8 @@ ClientRead ==
           /\ delivered' = delivered \cup f.ids
           /\ flags' = IF f.ids \cap delivered # {} THEN flags \cup {"dup_delivered"} ELSE flags
     /\ wire' = Tail(wire)
-    /\ UNCHANGED <<now, store, req, client, hpc, rpc, dpc, spc, from, buf, chClosed, wdone, cancelled, svcTick, pingTick,
-                   vcached, stale, fault, sent, cls, late>>
+    /\ UNCHANGED <<now, store, req, status, client, hpc, rpc, dpc, spc, from, buf, chClosed, wdone, cancelled, svcTick, pingTick,
+                   vcached, stale, fault, sent, cls, late, used>>
 
 -----------------------------------------------------------------------------
 (* the handler *)
@@ -175,16 +184,18 @@ Request(k, f0) ==
     /\ hpc = "idle" /\ req = "none" /\ req' = k
     /\ CASE k \in {"empty", "noparse"} ->             \* `query == ""` / Transpile fails: return before anything is started
                /\ hpc' = "term" /\ client' = "refused"
+               /\ (\/ Int("silent_refusal") /\ status' = 400 /\ used' = used                        \* an error status
+                   \/ Cod("silent_refusal") /\ status' = 200 /\ used' = used \cup {"silent_refusal"}) \* as coded: log, return
                /\ UNCHANGED <<rpc, dpc, spc, from, wdone, cancelled>>
-         [] k = "noupgrade" ->                         \* service.Tail started its goroutine, Upgrade fails: deferred chain
-               /\ hpc' = "term" /\ client' = "refused"
+         [] k = "noupgrade" ->                         \* service.Tail started its goroutine, Upgrade fails (400): deferred chain
+               /\ hpc' = "term" /\ client' = "refused" /\ status' = 400
                /\ spc' = "tick" /\ from' = f0
                /\ wdone' = TRUE /\ cancelled' = TRUE /\ dpc' = "drain"
-               /\ UNCHANGED rpc
+               /\ UNCHANGED <<rpc, used>>
          [] k = "ok" ->
-               /\ hpc' = "select" /\ client' = "open" /\ rpc' = "read"
+               /\ hpc' = "select" /\ client' = "open" /\ rpc' = "read" /\ status' = 101
                /\ spc' = "tick" /\ from' = f0
-               /\ UNCHANGED <<dpc, wdone, cancelled>>
+               /\ UNCHANGED <<dpc, wdone, cancelled, used>>
     /\ svcTick' = FALSE /\ pingTick' = FALSE
     /\ UNCHANGED <<now, store, buf, chClosed, vcached, wire, stale, fault, sent, cls, delivered, flags, late>>
 
@@ -210,14 +221,14 @@ Write(f) ==
 HCtx ==                                               \* case <-watchCtx.Done(): return
     /\ hpc = "select" /\ cancelled
     /\ ExitEffects
-    /\ UNCHANGED <<now, store, req, client, rpc, spc, from, buf, chClosed, svcTick, pingTick,
-                   vcached, wire, stale, fault, sent, cls, delivered, flags, late>>
+    /\ UNCHANGED <<now, store, req, status, client, rpc, spc, from, buf, chClosed, svcTick, pingTick,
+                   vcached, wire, stale, fault, sent, cls, delivered, flags, late, used>>
 
 HPing ==                                              \* case <-pingTimer.C: write {"streams":[]}
     /\ hpc = "select" /\ pingTick /\ pingTick' = FALSE
     /\ Write(Ping)
-    /\ UNCHANGED <<now, store, req, client, rpc, spc, from, buf, chClosed, svcTick,
-                   vcached, fault, sent, cls, delivered, late>>
+    /\ UNCHANGED <<now, store, req, status, client, rpc, spc, from, buf, chClosed, svcTick,
+                   vcached, fault, sent, cls, delivered, late, used>>
 
 \* the service goroutine's side of a completed send
 AfterSend == spc' = IF spc = "send" THEN "tick" ELSE "exit"
@@ -226,15 +237,15 @@ HRecv ==                                              \* case str := <-watcher.G
     /\ hpc = "select" /\ ~chClosed /\ spc \in {"send", "errsend"}
     /\ AfterSend
     /\ Write(buf)
-    /\ UNCHANGED <<now, store, req, client, rpc, from, buf, chClosed, svcTick, pingTick,
-                   vcached, fault, sent, cls, delivered, late>>
+    /\ UNCHANGED <<now, store, req, status, client, rpc, from, buf, chClosed, svcTick, pingTick,
+                   vcached, fault, sent, cls, delivered, late, used>>
 
 HRecvClosed ==                                        \* the same case on the CLOSED channel
     /\ hpc = "select" /\ chClosed
-    /\ IF "spin_on_closed" \in Dev
-         THEN Write(EmptyMsg)                         \* as coded: zero value, written as a message, again and again
-         ELSE ExitEffects /\ UNCHANGED <<wire, stale, flags>>
-    /\ UNCHANGED <<now, store, req, client, rpc, spc, from, buf, chClosed, svcTick, pingTick,
+    /\ \/ Int("spin_on_closed") /\ ExitEffects /\ UNCHANGED <<wire, stale, flags, used>>   \* `str, ok := <-ch; if !ok { return }`
+       \/ Cod("spin_on_closed") /\ Write(EmptyMsg)    \* as coded: zero value, written as a message, again and again
+          /\ used' = used \cup {"spin_on_closed"}
+    /\ UNCHANGED <<now, store, req, status, client, rpc, spc, from, buf, chClosed, svcTick, pingTick,
                    vcached, fault, sent, cls, delivered, late>>
 
 -----------------------------------------------------------------------------
@@ -243,14 +254,14 @@ HRecvClosed ==                                        \* the same case on the CL
 RClose ==                                             \* close frame: the close handler runs watcher.Close(); cancel()
     /\ rpc = "read" /\ client = "closing"
     /\ rpc' = "term" /\ client' = "closed" /\ wdone' = TRUE /\ cancelled' = TRUE
-    /\ UNCHANGED <<now, store, req, hpc, dpc, spc, from, buf, chClosed, svcTick, pingTick,
-                   vcached, wire, stale, fault, sent, cls, delivered, flags, late>>
+    /\ UNCHANGED <<now, store, req, status, hpc, dpc, spc, from, buf, chClosed, svcTick, pingTick,
+                   vcached, wire, stale, fault, sent, cls, delivered, flags, late, used>>
 
 RDrop ==                                              \* read error: the goroutine ends, NOTHING is cancelled
     /\ rpc = "read" /\ (client = "dropped" \/ hpc = "term")
     /\ rpc' = "term"
-    /\ UNCHANGED <<now, store, req, client, hpc, dpc, spc, from, buf, chClosed, wdone, cancelled, svcTick, pingTick,
-                   vcached, wire, stale, fault, sent, cls, delivered, flags, late>>
+    /\ UNCHANGED <<now, store, req, status, client, hpc, dpc, spc, from, buf, chClosed, wdone, cancelled, svcTick, pingTick,
+                   vcached, wire, stale, fault, sent, cls, delivered, flags, late, used>>
 
 -----------------------------------------------------------------------------
 (* the drainer: go func() { for range watcher.GetRes() {} }() *)
@@ -258,13 +269,13 @@ RDrop ==                                              \* read error: the gorouti
 DRecv ==
     /\ dpc = "drain" /\ ~chClosed /\ spc \in {"send", "errsend"}
     /\ AfterSend
-    /\ UNCHANGED <<now, store, req, client, hpc, rpc, dpc, from, buf, chClosed, wdone, cancelled, svcTick, pingTick,
-                   vcached, wire, stale, fault, sent, cls, delivered, flags, late>>
+    /\ UNCHANGED <<now, store, req, status, client, hpc, rpc, dpc, from, buf, chClosed, wdone, cancelled, svcTick, pingTick,
+                   vcached, wire, stale, fault, sent, cls, delivered, flags, late, used>>
 
 DEnd ==
     /\ dpc = "drain" /\ chClosed /\ dpc' = "term"
-    /\ UNCHANGED <<now, store, req, client, hpc, rpc, spc, from, buf, chClosed, wdone, cancelled, svcTick, pingTick,
-                   vcached, wire, stale, fault, sent, cls, delivered, flags, late>>
+    /\ UNCHANGED <<now, store, req, status, client, hpc, rpc, spc, from, buf, chClosed, wdone, cancelled, svcTick, pingTick,
+                   vcached, wire, stale, fault, sent, cls, delivered, flags, late, used>>
 
 -----------------------------------------------------------------------------
 (* the service goroutine *)
@@ -272,8 +283,8 @@ DEnd ==
 STick ==                                              \* for _ = range ticker.C
     /\ spc = "tick" /\ svcTick /\ svcTick' = FALSE /\ spc' = "version"
     /\ late' = IF hpc = "term" /\ late < 3 THEN late + 1 ELSE late
-    /\ UNCHANGED <<now, store, req, client, hpc, rpc, dpc, from, buf, chClosed, wdone, cancelled, pingTick,
-                   vcached, wire, stale, fault, sent, cls, delivered, flags>>
+    /\ UNCHANGED <<now, store, req, status, client, hpc, rpc, dpc, from, buf, chClosed, wdone, cancelled, pingTick,
+                   vcached, wire, stale, fault, sent, cls, delivered, flags, used>>
 
 \* dbVersion.GetVersionInfo(ctx, ..): o = "cached" | "ok" | "version" (database error) | "ctx" (context already cancelled)
 \* (database/sql looks at the context a moment before the database acts: a cancellation in between does not stop the statement,
@@ -285,27 +296,29 @@ SVersion(o) ==
          [] o = "ok"      -> ~vcached /\ vcached' = TRUE /\ spc' = "done" /\ UNCHANGED fault
          [] o = "version" -> ~vcached /\ "version" \in Faults /\ fault = "none"
                              /\ fault' = "version" /\ spc' = "exit" /\ UNCHANGED vcached
-    /\ UNCHANGED <<now, store, req, client, hpc, rpc, dpc, from, buf, chClosed, wdone, cancelled, svcTick, pingTick,
-                   wire, stale, sent, cls, delivered, flags, late>>
+    /\ UNCHANGED <<now, store, req, status, client, hpc, rpc, dpc, from, buf, chClosed, wdone, cancelled, svcTick, pingTick,
+                   wire, stale, sent, cls, delivered, flags, late, used>>
 
 SDone ==                                              \* select { case <-res.Done(): return; default: }
     /\ spc = "done"
     /\ spc' = IF wdone THEN "exit" ELSE "query"
-    /\ UNCHANGED <<now, store, req, client, hpc, rpc, dpc, from, buf, chClosed, wdone, cancelled, svcTick, pingTick,
-                   vcached, wire, stale, fault, sent, cls, delivered, flags, late>>
+    /\ UNCHANGED <<now, store, req, status, client, hpc, rpc, dpc, from, buf, chClosed, wdone, cancelled, svcTick, pingTick,
+                   vcached, wire, stale, fault, sent, cls, delivered, flags, late, used>>
 
 Rows(to) == {l \in store : from <= l.ts /\ l.ts < to}     \* samples.timestamp_ns >= from AND < to
 
-\* the frame loop over the rows P that arrived, and what it does to the cursor and the ghosts
-Deliver(to, P) ==
+\* the frame loop over the rows P that arrived, and what it does to the cursor and the ghosts (tags: switches the caller took)
+Deliver(to, P, tags) ==
     /\ buf' = OkFrame(Ids(P))
     /\ sent' = sent \cup Ids(P)
     /\ flags' = IF Ids(P) \cap sent # {} THEN flags \cup {"dup_sent"} ELSE flags
-    /\ from' = IF P = {} THEN from
-               ELSE LET m == MaxOf({l.ts : l \in P}) IN
-                    IF "cursor_stuck" \in Dev
-                      THEN (IF from < m THEN m + 1 ELSE from)     \* as coded: `if from < ts { from = ts + 1 }`
-                      ELSE Max(from, m + 1)
+    /\ IF P = {} THEN from' = from /\ used' = used \cup tags
+       ELSE LET m == MaxOf({l.ts : l \in P})
+                intended == Max(from, m + 1)                        \* from := newest timestamp in the frame + 1
+                coded    == IF from < m THEN m + 1 ELSE from        \* as coded: `if from < ts { from = ts + 1 }`
+            IN  IF intended = coded THEN from' = intended /\ used' = used \cup tags
+                ELSE \/ Int("cursor_stuck") /\ from' = intended /\ used' = used \cup tags
+                     \/ Cod("cursor_stuck") /\ from' = coded /\ used' = used \cup tags \cup {"cursor_stuck"}
     /\ cls' = [l \in Lines |->
                  IF cls[l] # "none" \/ l \notin Ids(store) THEN cls[l]
                  ELSE IF TsOf(l) < from THEN "old" ELSE IF TsOf(l) < to THEN "due" ELSE "future"]
@@ -317,28 +330,27 @@ Deliver(to, P) ==
 \*   o = "scan"  the row after P cannot be decoded: an error ENTRY reaches the frame loop
 SQuery(to, o, P) ==
     /\ spc = "query"
-    /\ CASE o = "ctx"   -> cancelled /\ P = {} /\ spc' = "exit" /\ UNCHANGED <<buf, sent, flags, from, cls, fault>>
-         [] o = "none"  -> P = Rows(to) /\ Deliver(to, P) /\ UNCHANGED fault
+    /\ CASE o = "ctx"   -> cancelled /\ P = {} /\ spc' = "exit" /\ UNCHANGED <<buf, sent, flags, from, cls, fault, used>>
+         [] o = "none"  -> P = Rows(to) /\ Deliver(to, P, {}) /\ UNCHANGED fault
          [] o = "query" -> "query" \in Faults /\ fault = "none" /\ P = {}
-                           /\ fault' = "query" /\ spc' = "exit" /\ UNCHANGED <<buf, sent, flags, from, cls>>
+                           /\ fault' = "query" /\ spc' = "exit" /\ UNCHANGED <<buf, sent, flags, from, cls, used>>
          [] o = "row"   -> "row" \in Faults /\ fault = "none" /\ P \subseteq Rows(to)
                            /\ fault' = "row"
-                           /\ (IF "row_err_unnoticed" \in Dev
-                                 THEN Deliver(to, P)  \* as coded: looks like a complete answer
-                                 ELSE spc' = "exit" /\ UNCHANGED <<buf, sent, flags, from, cls>>)
+                           /\ (\/ Int("row_err_unnoticed") /\ spc' = "exit" /\ UNCHANGED <<buf, sent, flags, from, cls, used>>
+                               \/ Cod("row_err_unnoticed") /\ Deliver(to, P, {"row_err_unnoticed"}))  \* as coded: looks complete
          [] o = "scan"  -> "scan" \in Faults /\ fault = "none" /\ P \subseteq Rows(to) /\ P # Rows(to)
                            /\ fault' = "scan"
-                           /\ (IF "err_frame" \in Dev
-                                 THEN spc' = "errsend" /\ buf' = ErrTail     \* onErr(e.Err, res): res <- "]}}"
-                                 ELSE spc' = "exit" /\ UNCHANGED buf)
+                           /\ (\/ Int("err_frame") /\ spc' = "exit" /\ UNCHANGED <<buf, used>>
+                               \/ Cod("err_frame") /\ spc' = "errsend" /\ buf' = ErrTail       \* onErr(e.Err, res): res <- "]}}"
+                                  /\ used' = used \cup {"err_frame"})
                            /\ UNCHANGED <<sent, flags, from, cls>>
-    /\ UNCHANGED <<now, store, req, client, hpc, rpc, dpc, chClosed, wdone, cancelled, svcTick, pingTick,
+    /\ UNCHANGED <<now, store, req, status, client, hpc, rpc, dpc, chClosed, wdone, cancelled, svcTick, pingTick,
                    vcached, wire, stale, delivered, late>>
 
 SExit ==                                              \* deferred: ticker.Stop(); close(res); cancel()
     /\ spc = "exit" /\ spc' = "term" /\ chClosed' = TRUE /\ svcTick' = FALSE
-    /\ UNCHANGED <<now, store, req, client, hpc, rpc, dpc, from, buf, wdone, cancelled, pingTick,
-                   vcached, wire, stale, fault, sent, cls, delivered, flags, late>>
+    /\ UNCHANGED <<now, store, req, status, client, hpc, rpc, dpc, from, buf, wdone, cancelled, pingTick,
+                   vcached, wire, stale, fault, sent, cls, delivered, flags, late, used>>
 
 -----------------------------------------------------------------------------
 (* properties *)
@@ -350,12 +362,12 @@ Gone == client \in {"closed", "dropped", "refused"}
 TypeOK ==
     /\ now \in 0..MaxT /\ from \in 0..(MaxT + 1)
     /\ \A l \in store : l.id \in Lines /\ l.ts \in 0..MaxT
-    /\ req \in {"none", "ok", "empty", "noparse", "noupgrade"}
+    /\ req \in {"none", "ok", "empty", "noparse", "noupgrade"} /\ status \in {0, 101, 200, 400}
     /\ client \in {"none", "open", "closing", "closed", "dropped", "refused"}
     /\ hpc \in {"idle", "select", "term"} /\ rpc \in {"none", "read", "term"} /\ dpc \in {"none", "drain", "term"}
     /\ spc \in {"none", "tick", "version", "done", "query", "send", "errsend", "exit", "term"}
     /\ buf.k \in {"ok", "errtail"} /\ Len(wire) <= MaxWire /\ stale \in 0..MaxStale
-    /\ sent \subseteq Lines /\ delivered \subseteq Lines
+    /\ sent \subseteq Lines /\ delivered \subseteq Lines /\ used \subseteq AllDev
 
 \* ---- delivery
 NoDuplicate       == "dup_sent" \notin flags /\ "dup_delivered" \notin flags
@@ -370,9 +382,11 @@ ServiceStopsAfterHandler == late <= 1                   \* at most one more tick
 DrainerOnlyAfterHandler  == dpc # "none" => hpc = "term"
 ClosedOnlyByService      == chClosed <=> spc = "term"
 RefusedStartsNothing     == req \in {"empty", "noparse"} => spc = "none" /\ rpc = "none" /\ dpc = "none"
+RefusalIsAnError         == client = "refused" => status >= 400
+NothingAsCoded           == used = {}                   \* (Dev = {}: no as-coded branch exists)
 NoFrameAfterReturn       == [][hpc = "term" => Len(wire') <= Len(wire)]_vars
 
-\* ---- liveness (under the fairness of Fair)
+\* ---- liveness (under the fairness of MC_Tail!Fair)
 Termination       == Gone ~> AllDone                    \* every goroutine of the request ends once the client is gone
 SenderNeverStuck  == (spc \in {"send", "errsend"}) ~> (spc \notin {"send", "errsend"})   \* nobody stays blocked on the unbuffered channel
 ClosedEndsHandler == chClosed ~> (hpc = "term")         \* database error: the handler ends the connection
